@@ -529,6 +529,16 @@ func (P) Monitor(c *hx.CaseRun) []hx.Failure {
 					fs = append(fs, hx.Failure{Monitor: "canonical", Class: "noncanonical-item-accepted", Site: "libs/ser/decode.go", Msg: "an encoding with one non-canonical item is accepted and re-encodes differently: " + clipS(op, 300) + " -> " + clipS(ans, 200)})
 				}
 			}
+			if ev, has := hx.Arg(toks, "expectv"); has {
+				// the canonical re-encoding of an accepted byte string: decoding it gives the same value and the same bytes
+				bs, _ := hx.Arg(toks, "bytes")
+				at := hx.Tokens(ans)
+				v2, _ := hx.Arg(at, "v")
+				b2, _ := hx.Arg(at, "b2")
+				if !strings.HasPrefix(ans, "ok ") || v2 != ev || b2 != bs {
+					fs = append(fs, hx.Failure{Monitor: "canonical", Class: "canonical-reencoding-unstable", Site: "libs/ser", Msg: "decode -> value -> re-encode is not a fixed point: " + clipS(op, 300) + " -> " + clipS(ans, 200)})
+				}
+			}
 			if rt, _ := hx.Arg(toks, "rt"); rt == "1" {
 				bs, _ := hx.Arg(toks, "bytes")
 				skip, _ := hx.Arg(toks, "pre")
@@ -539,6 +549,9 @@ func (P) Monitor(c *hx.CaseRun) []hx.Failure {
 				at := hx.Tokens(ans)
 				b2, _ := hx.Arg(at, "b2")
 				switch {
+				case arr1ZeroIn(op, lastVal) && (!strings.HasPrefix(ans, "ok ") || !equivDump(op, lastVal, ans)):
+					// known finding, and only this shape: the value holds a [1]byte{0}
+					fs = append(fs, hx.Failure{Monitor: "roundtrip", Class: "bytearray1-zero-not-consumed", Site: "libs/ser/decode.go:decodeByteArray", Msg: "a [1]byte holding 0x00 does not round-trip: " + clipS(op, 300) + " -> " + clipS(ans, 120)})
 				case !strings.HasPrefix(ans, "ok "):
 					fs = append(fs, hx.Failure{Monitor: "roundtrip", Class: "roundtrip-decode-rejects-own-encoding", Site: "libs/ser", Msg: "the decoder rejects bytes the encoder produced: " + clipS(op, 300)})
 				case lastVal != "" && !equivDump(op, lastVal, ans):
@@ -631,7 +644,11 @@ func (P) Monitor(c *hx.CaseRun) []hx.Failure {
 				fs = append(fs, hx.Failure{Monitor: "decode_terminates", Class: "decode-slow:" + rootOf(op), Site: "libs/ser/decode.go", Msg: "decode did not return within 2 s: " + clipS(op, 300)})
 			}
 			if rt, _ := hx.Arg(toks, "rt"); rt == "1" && !(strings.HasPrefix(ans, "ok ") && lastVal != "" && equivDump(op, lastVal, ans)) {
-				fs = append(fs, hx.Failure{Monitor: "roundtrip", Class: "reader-roundtrip-differs", Site: "libs/ser", Msg: "decoding an encoding through a reader does not give the value back: " + clipS(op, 300) + " -> " + clipS(ans, 200)})
+				class := "reader-roundtrip-differs"
+				if arr1ZeroIn(op, lastVal) {
+					class = "bytearray1-zero-not-consumed"
+				}
+				fs = append(fs, hx.Failure{Monitor: "roundtrip", Class: class, Site: "libs/ser", Msg: "decoding an encoding through a reader does not give the value back: " + clipS(op, 300) + " -> " + clipS(ans, 200)})
 			}
 		case "enc":
 			if strings.HasPrefix(ans, "reader-mismatch") {
@@ -676,6 +693,52 @@ func equivDump(op, val, ans string) (ok bool) {
 		return false
 	}
 	return theWorld().u.equivV(r.D, ParseV(val), ParseV(v2))
+}
+
+// arr1ZeroIn: the value written (val= of the preceding enc op) holds a [1]byte whose byte is 0x00, by the root's descriptor
+func arr1ZeroIn(op, val string) (found bool) {
+	defer func() {
+		if recover() != nil {
+			found = false
+		}
+	}()
+	r := theWorld().byName[rootOf(op)]
+	if r == nil || val == "" {
+		return false
+	}
+	return theWorld().u.hasArr1Zero(r.D, ParseV(val))
+}
+
+func (u *Universe) hasArr1Zero(d *Desc, v *V) bool {
+	switch d.K {
+	case '@':
+		return u.hasArr1Zero(u.Defs[d.N], v)
+	case 'A':
+		return d.N == 1 && v.K == 'x' && len(v.B) == 1 && v.B[0] == 0
+	case 'E':
+		return u.hasArr1Zero(d.Sub[0], v)
+	case 'L', 'R':
+		for _, e := range v.Sub {
+			if u.hasArr1Zero(d.Sub[0], e) {
+				return true
+			}
+		}
+	case 'Q':
+		for i, s := range d.Sub {
+			if i < len(v.Sub) && u.hasArr1Zero(s, v.Sub[i]) {
+				return true
+			}
+		}
+	case 'P':
+		return v.K == 'p' && u.hasArr1Zero(d.Sub[0], v.Sub[0])
+	case 'C', 'D':
+		return v.K == 'p' && u.hasArr1Zero(u.Defs[d.Sub[0].N], v.Sub[0])
+	case 'c', 'd':
+		return u.hasArr1Zero(u.Defs[d.Sub[0].N], v)
+	case 'I':
+		return v.K == 'j' && u.hasArr1Zero(&Desc{K: '@', N: u.Reg[v.Idx].Ty}, v.Sub[0])
+	}
+	return false
 }
 
 func clipS(s string, n int) string {
